@@ -3,6 +3,7 @@ package fsloop
 import (
 	"runtime"
 
+	"github.com/goatcms/goatcore/verifhook"
 	"github.com/goatcms/goatcore/workers/jobsync"
 )
 
@@ -16,11 +17,14 @@ type Consumer struct {
 // Loop start data process (use "go Loop()" to run it in new goroutine)
 func (consumer *Consumer) Loop() {
 	defer consumer.pool.Done()
+	defer verifhook.Yield("fsloop.consumer.exit")
 	for {
+		verifhook.Yield("fsloop.consumer.top")
 		if consumer.lifecycle.IsKilled() {
 			return
 		}
 		isClosed := consumer.lifecycle.Step() == StepClose
+		verifhook.Yield("fsloop.consumer.gap")
 		if len(consumer.loopData.chans.dirChan) == 0 &&
 			len(consumer.loopData.chans.fileChan) == 0 {
 			if isClosed {
